@@ -401,7 +401,7 @@ def _gen_one(i):
         st['types'] += 1
         for v in vals:
             try:
-                vs = ber.variants(lambda ch: ber.encode(mod, t, v, ch), k, cap=cap)
+                vs = ber.variants(lambda ch: ber.encode_policy(mod, t, v, ch), k, cap=cap)
             except Exception:
                 st['generator_skipped_values'] += 1
                 continue
